@@ -122,4 +122,76 @@ Proof.
     + apply Nat.ltb_lt in Hlt. rewrite Hlt, Hcr. reflexivity.
 Qed.
 
+
+(* the whole program including the result cast of Compile (AsInt64 / AsFloat64) *)
+Lemma fetch_cast (e : expr) c t : 
+  compile_program (c_mapenv cfg) c e = compile (c_mapenv cfg) e ++ [(ICast t, noloc)] ->
+  fetch (compile_program (c_mapenv cfg) c e) (csize (compile (c_mapenv cfg) e)) = Some (ICast t, noloc).
+Proof.
+  intros H. rewrite H. replace (csize (compile (c_mapenv cfg) e)) with (csize (compile (c_mapenv cfg) e) + 0) by lia.
+  rewrite fetch_app_skip. reflexivity.
+Qed.
+
+Theorem run_compiled_program e c :
+  compilable e = true ->
+  stop_is_locatable (eval fe cfg env [] e rs0) ->
+  exists d0, forall d, d0 <= d ->
+    run_code fe cfg env (compile_program (c_mapenv cfg) c e) d = Some (run_ref fe cfg env c e).
+Proof.
+  intros Hc Hloc. set (C := compile_program (c_mapenv cfg) c e).
+  pose proof (compile_correct fe cfg env C e Hc [] [] (cm_nil) 0) as H.
+  assert (Hat : code_at C 0 (compile (c_mapenv cfg) e)).
+  { exists [], (match c with CastNone => [] | CastInt64 => [(ICast 0%Z, noloc)] | CastFloat64 => [(ICast 1%Z, noloc)] end).
+    split; reflexivity. }
+  specialize (H Hat [] rs0). cbn [app] in H. unfold run_code, init_state, run_ref.
+  destruct (eval fe cfg env [] e rs0) as [v r'|er l r']; cbn [rbind].
+  2: { destruct H as (s' & Hs & Hcr). destruct (star_iter _ _ _ _ _ _ Hs) as [n Hn].
+       exists (S n). intros d Hd.
+       erewrite (finish_from fe cfg env C (n + 1) _ (Stop er l r')); [reflexivity| |lia].
+       rewrite iter_tick_add, Hn. cbn [iter_tick]. unfold VM.tick.
+       destruct (step_crash_lt _ _ _ _ _ _ _ _ Hcr) as [[E1 E2]|Hlt].
+       - subst. cbn in Hloc. contradiction.
+       - apply Nat.ltb_lt in Hlt. rewrite Hlt, Hcr. reflexivity. }
+  destruct (star_iter _ _ _ _ _ _ H) as [n Hn]. cbn [plus] in Hn.
+  destruct c.
+  - (* no cast *)
+    exists (S n). intros d Hd.
+    erewrite (finish_from fe cfg env C (n + 1) _ (Done v r')); [reflexivity| |lia].
+    rewrite iter_tick_add, Hn. cbn [iter_tick]. unfold VM.tick. cbn [pc stk rs].
+    replace (Nat.ltb (csize (compile (c_mapenv cfg) e)) (csize C)) with false; [reflexivity|].
+    symmetry. apply Nat.ltb_ge. subst C. unfold compile_program. rewrite csize_app. cbn. lia.
+  - (* int64 *)
+    assert (F : fetch C (csize (compile (c_mapenv cfg) e)) = Some (ICast 0%Z, noloc)) by (apply fetch_cast; reflexivity).
+    assert (Lt : Nat.ltb (csize (compile (c_mapenv cfg) e)) (csize C) = true).
+    { apply Nat.ltb_lt. subst C. unfold compile_program. rewrite csize_app. cbn. lia. }
+    destruct (to_int64 v) as [w|er] eqn:Ec; cbn [lift].
+    + exists (S (S n)). intros d Hd.
+      erewrite (finish_from fe cfg env C (n + 2) _ (Done w r')); [reflexivity| |lia].
+      rewrite iter_tick_add, Hn. cbn [iter_tick]. unfold VM.tick at 1. cbn [pc]. rewrite Lt.
+      unfold VM.step. cbn [pc stk scs rs]. rewrite F. cbn. rewrite Ec.
+      unfold VM.tick. cbn [pc stk rs].
+      replace (Nat.ltb (csize (compile (c_mapenv cfg) e) + 3) (csize C)) with false; [reflexivity|].
+      symmetry. apply Nat.ltb_ge. subst C. unfold compile_program. rewrite csize_app. cbn. lia.
+    + exists (S n). intros d Hd.
+      erewrite (finish_from fe cfg env C (n + 1) _ (Stop er noloc r')); [reflexivity| |lia].
+      rewrite iter_tick_add, Hn. cbn [iter_tick]. unfold VM.tick. cbn [pc]. rewrite Lt.
+      unfold VM.step. cbn [pc stk scs rs]. rewrite F. cbn. rewrite Ec. reflexivity.
+  - (* float64 *)
+    assert (F : fetch C (csize (compile (c_mapenv cfg) e)) = Some (ICast 1%Z, noloc)) by (apply fetch_cast; reflexivity).
+    assert (Lt : Nat.ltb (csize (compile (c_mapenv cfg) e)) (csize C) = true).
+    { apply Nat.ltb_lt. subst C. unfold compile_program. rewrite csize_app. cbn. lia. }
+    destruct (to_float64 v) as [w|er] eqn:Ec; cbn [lift].
+    + exists (S (S n)). intros d Hd.
+      erewrite (finish_from fe cfg env C (n + 2) _ (Done (VNum (NFlt KF64 w)) r')); [reflexivity| |lia].
+      rewrite iter_tick_add, Hn. cbn [iter_tick]. unfold VM.tick at 1. cbn [pc]. rewrite Lt.
+      unfold VM.step. cbn [pc stk scs rs]. rewrite F. cbn. rewrite Ec.
+      unfold VM.tick. cbn [pc stk rs].
+      replace (Nat.ltb (csize (compile (c_mapenv cfg) e) + 3) (csize C)) with false; [reflexivity|].
+      symmetry. apply Nat.ltb_ge. subst C. unfold compile_program. rewrite csize_app. cbn. lia.
+    + exists (S n). intros d Hd.
+      erewrite (finish_from fe cfg env C (n + 1) _ (Stop er noloc r')); [reflexivity| |lia].
+      rewrite iter_tick_add, Hn. cbn [iter_tick]. unfold VM.tick. cbn [pc]. rewrite Lt.
+      unfold VM.step. cbn [pc stk scs rs]. rewrite F. cbn. rewrite Ec. reflexivity.
+Qed.
+
 End Program.
